@@ -29,6 +29,7 @@ func checkC09(r *core.Run) {
 	ruleSigDoc(r)
 	r.Rule("G-sigpath: verifySignature returns success only after VerifyJWS succeeded on that path, with a payload derived from the proposal argument's bytes")
 	ruleSigPath(r)
+	ruleSigOwner(r)
 
 	sig := sigTerm()
 	sigOK := guard.Eq(sig+"#1", "nil")
@@ -95,6 +96,16 @@ func checkC09(r *core.Run) {
 // ruleSigDoc (G-sigdoc): the closure passed to saodid.NewDidManagerWithDid in
 // verifySignature answers with a non-nil document only on paths that tested
 // the requested version id for membership in the owner's version list.
+// ruleSigOwner (T-sigowner): the DID manager that verifies the JWS is created with the owner verifySignature was
+// asked about (its second parameter). The library's "kid DID == manager DID" test is the only place where the signer
+// is tied to the claimed owner; a manager created with the DID found in the signature itself accepts anybody's
+// signature over a proposal that names somebody else as owner (handlers that use the claimed owner afterwards —
+// permission update — are then open to strangers).
+func ruleSigOwner(r *core.Run) {
+	r.Rule("T-sigowner: in verifySignature the DID manager is created with the claimed owner (parameter), not with a DID taken from the signature")
+	evalArgAll(r, "T-sigowner", "sao/keeper.Keeper.verifySignature", "github.com/SaoNetwork/sao-did.NewDidManagerWithDid", 0, []string{"#2"}, "the verifying DID manager is bound to the claimed owner")
+}
+
 func ruleSigDoc(r *core.Run) {
 	const id = "G-sigdoc"
 	fnName := "sao/keeper.Keeper.verifySignature"
